@@ -11,8 +11,10 @@ pub struct RegexReplacement {
 
 impl RegexReplacement {
     pub fn from_sed_command(sed_command: &str) -> Option<Self> {
-        let sep = sed_command.chars().nth(1)?;
-        let mut parts = sed_command[2..].split(sep);
+        let mut chars = sed_command.chars();
+        let command = chars.next()?;
+        let sep = chars.next()?;
+        let mut parts = sed_command[command.len_utf8() + sep.len_utf8()..].split(sep);
         let regex = parts.next()?;
         let replacement = parts.next()?.to_string();
         let flags = parts.next()?;
